@@ -191,6 +191,20 @@ Definition prim_good (tol : R) (pr : prim R) : Prop :=
   forall q, on_any (surfaces_of tol pr) q = false ->
             all_hold (surfaces_of tol pr) q = inside_prim pr q.
 
+(** poly-solids: the (outer, optional inner) segment pairs; a pair is fine when
+    the stacked primitives are good and inner/outer share the axial extent *)
+Definition poly_pairs (zs ro : list R) (ri : option (list R)) :=
+  let outs := segments zs ro in
+  combine outs (match ri with Some l => map Some (segments zs l) | None => map (fun _ => None) outs end).
+Definition seg_ok (tol : R) (mk : R -> R -> R -> prim R)
+           (oi : (R * R * R * R) * option (R * R * R * R)) : Prop :=
+  let '(z0, z1, r0, r1) := fst oi in
+  prim_good tol (mk r0 r1 ((z1 - z0) / 2)) /\
+  match snd oi with
+  | Some (y0, y1, q0, q1) => y0 = z0 /\ y1 = z1 /\ prim_good tol (mk q0 q1 ((z1 - z0) / 2))
+  | None => True
+  end.
+
 (** objects covered by the composition theorem: primitives are good,
     transforms are orthogonal (rotations / reflections + translation), solids
     are hollow or plain (azimuthal slices: see [wedge_surfaces_iff_inside]),
@@ -199,6 +213,14 @@ Inductive good (tol : R) : obj R -> Prop :=
 | good_shape pr : prim_good tol pr -> good tol (Shape pr)
 | good_solid i : prim_good tol i -> good tol (Solid i None None)
 | good_hollow i e : prim_good tol i -> prim_good tol e -> good tol (Solid i (Some e) None)
+| good_sliced i e s a : prim_good tol i -> (forall ex, e = Some ex -> prim_good tol ex) -> 0 < a <= 1 ->
+    good tol (Solid i e (Some (s, a)))
+| good_polycone zs ro ri a :
+    Forall (seg_ok tol mk_cone) (poly_pairs zs ro ri) -> (forall s i, a = Some (s, i) -> 0 < i <= 1) ->
+    good tol (PolyCone zs ro ri a)
+| good_polyprism n orient zs ro ri a :
+    Forall (seg_ok tol (mk_prism n orient)) (poly_pairs zs ro ri) -> (forall s i, a = Some (s, i) -> 0 < i <= 1) ->
+    good tol (PolyPrism n orient zs ro ri a)
 | good_tr o t : orth (tf_rot t) -> good tol o -> good tol (Transformed o t)
 | good_neg o : good tol o -> good tol (Neg o)
 | good_all l : Forall (good tol) l -> good tol (All l)
@@ -223,6 +245,11 @@ Proof. cbn [csg_off]. induction l as [|x r IH]; cbn; [reflexivity|]. now rewrite
 Lemma off_or l p : csg_off (COr l) p = forallb (fun c => csg_off c p) l.
 Proof. cbn [csg_off]. induction l as [|x r IH]; cbn; [reflexivity|]. now rewrite <- IH. Qed.
 
+Lemma eval_not c p : eval_csg (CNot c) p = negb (eval_csg c p).
+Proof. reflexivity. Qed.
+Lemma off_not c p : csg_off (CNot c) p = csg_off c p.
+Proof. reflexivity. Qed.
+
 Lemma eval_build_prim tol tr pr p :
   eval_csg (build_prim tol tr pr) p = all_hold (surfaces_of tol pr) (tf_down tr p).
 Proof.
@@ -242,6 +269,168 @@ Proof. reflexivity. Qed.
 Lemma build_any tol tr l :
   build tol tr (Any l) = COr (map (build tol tr) l).
 Proof. reflexivity. Qed.
+
+(** *** azimuthal slices *)
+Lemma in_angle_eumod s i p : in_angle (eumod1 s) i p = in_angle s i p.
+Proof. unfold eumod1. numR. apply in_angle_shift. Qed.
+
+Lemma wedge_surfaces_shift s i (k : Z) : wedge_surfaces (s - IZR k) i = wedge_surfaces (T:=R) s i.
+Proof.
+  unfold wedge_surfaces, sin_turn, cos_turn. rewrite npi_PI. numR.
+  destruct (sincos_period_Z (2 * PI * s) (- k)) as [H1 H2]. rewrite opp_IZR in H1, H2.
+  destruct (sincos_period_Z (2 * PI * (s + i)) (- k)) as [H3 H4]. rewrite opp_IZR in H3, H4.
+  replace (2 * PI * (s - IZR k)) with (2 * PI * s + 2 * PI * - IZR k) by ring.
+  replace (2 * PI * (s - IZR k + i)) with (2 * PI * (s + i) + 2 * PI * - IZR k) by ring.
+  now rewrite H1, H2, H3, H4.
+Qed.
+Lemma wedge_surfaces_eumod s i : wedge_surfaces (eumod1 s) i = wedge_surfaces (T:=R) s i.
+Proof. unfold eumod1. numR. apply wedge_surfaces_shift. Qed.
+
+Lemma in_angle_full s p : in_angle (T:=R) s 1 p = true.
+Proof.
+  destruct p as [x y z]. unfold in_angle, cos_turn, sin_turn. rewrite npi_PI. numR. unfold n2. numR. cbn [vx vy vz].
+  destruct (Rleb_spec 1 (1 / 2)) as [Hbad|_]; [lra|].
+  replace (2 * PI * 1) with (0 + 2 * PI) by ring. rewrite cos_plus, cos_2PI, sin_2PI, cos_0, sin_0.
+  set (X := x * cos (2 * PI * s) + y * sin (2 * PI * s)). set (Y := y * cos (2 * PI * s) - x * sin (2 * PI * s)).
+  apply orb_true_iff. right. apply Rleb_true.
+  assert (Hr0 : 0 <= sqrt (X * X + Y * Y)) by apply sqrt_pos.
+  assert (Hrr : sqrt (X * X + Y * Y) * sqrt (X * X + Y * Y) = X * X + Y * Y) by (apply sqrt_sqrt; nra).
+  replace (sqrt (X * X + Y * Y) * (1 * 1 - 0 * 0)) with (sqrt (X * X + Y * Y)) by ring.
+  destruct (Rle_or_lt X (sqrt (X * X + Y * Y))) as [Hle|Hlt]; [exact Hle|]. nra.
+Qed.
+
+(** the wedge(s) built for an enclosed angle evaluate to the polar-angle definition *)
+Lemma enclosed_eval tol tr s i p : 0 < i <= 1 ->
+  forallb (fun c => csg_off c p) (build_enclosed tol tr (Some (s, i))) = true ->
+  forallb (fun c => eval_csg c p) (build_enclosed tol tr (Some (s, i))) = in_angle s i (tf_down tr p).
+Proof.
+  intros Hi. unfold build_enclosed. numR. unfold n2. numR.
+  destruct (Req_EM_T i 1) as [->|Hne].
+  - replace (Reqb 1 1) with true by (symmetry; now apply Reqb_true). cbn. intros _. now rewrite in_angle_full.
+  - replace (Reqb i 1) with false by (symmetry; now apply Reqb_false).
+    set (q := tf_down tr p). destruct (Rltb_spec (1 / 2) i) as [Hbig|Hsmall]; cbn [forallb eval_csg csg_off].
+    + rewrite !andb_true_r. rewrite eval_build_prim, off_build_prim. fold q. cbn [surfaces_of].
+      rewrite wedge_surfaces_eumod.
+      replace (eumod1 s + i) with ((s + i) - IZR (Int_part s)) by (unfold eumod1; numR; ring).
+      rewrite wedge_surfaces_shift. intros Hoff. apply negb_true_iff in Hoff.
+      assert (H1i : 0 < 1 - i <= / 2) by lra.
+      pose proof (wedge_surfaces_iff_inside (s + i) (1 - i) q H1i Hoff) as Hw.
+      cbn [inside_wedge] in Hw. unfold inside_wedge in Hw.
+      destruct q as [x y z].
+      (* off-surface facts for the complement lemma *)
+      unfold wedge_surfaces in Hoff. senses_in Hoff. destruct Hoff as (Ho1 & Ho2 & _).
+      unfold surf_f, sin_turn, cos_turn in Ho1, Ho2. rewrite npi_PI in Ho1, Ho2. vsimp.
+      replace (2 * PI * (s + i + (1 - i))) with (2 * PI * s + 2 * PI) in Ho2 by ring.
+      rewrite sin_plus, cos_plus, cos_2PI, sin_2PI in Ho2.
+      rewrite (in_angle_complement s i x y z ltac:(lra)); [| lra | lra].
+      f_equal. destruct (all_hold (wedge_surfaces (s + i) (1 - i)) (V3 x y z)),
+                        (in_angle (s + i) (1 - i) (V3 x y z)); try reflexivity;
+        [ symmetry; now apply Hw | now apply Hw ].
+    + rewrite !andb_true_r. rewrite eval_build_prim, off_build_prim. fold q. cbn [surfaces_of].
+      rewrite wedge_surfaces_eumod. intros Hoff. apply negb_true_iff in Hoff.
+      assert (Hi2 : 0 < i <= / 2) by lra.
+      pose proof (wedge_surfaces_iff_inside s i q Hi2 Hoff) as Hw. unfold inside_wedge in Hw.
+      destruct (all_hold (wedge_surfaces s i) q), (in_angle s i q); try reflexivity;
+        [ symmetry; now apply Hw | now apply Hw ].
+Qed.
+
+(** *** stacked segments *)
+Lemma existsb_flat_map {A B} (f : B -> bool) (g : A -> list B) l :
+  existsb f (flat_map g l) = existsb (fun x => existsb f (g x)) l.
+Proof. induction l as [|x r IH]; cbn; [reflexivity|]. now rewrite existsb_app, IH. Qed.
+Lemma forallb_flat_map {A B} (f : B -> bool) (g : A -> list B) l :
+  forallb f (flat_map g l) = forallb (fun x => forallb f (g x)) l.
+Proof. induction l as [|x r IH]; cbn; [reflexivity|]. now rewrite forallb_app, IH. Qed.
+
+Lemma tf_down_translate_z dz (q : vec3 R) :
+  tf_down (tf_translate_z dz) q = V3 (vx q) (vy q) (vz q - dz).
+Proof. destruct q as [x y z]. unfold tf_translate_z, mat3_id. mat_unfold. apply v3_eq; ring. Qed.
+
+Lemma seg_point tr dz p : orth (tf_rot tr) ->
+  tf_down (tf_compose tr (tf_translate_z dz)) p
+  = V3 (vx (tf_down tr p)) (vy (tf_down tr p)) (vz (tf_down tr p) - dz).
+Proof. intros Ho. now rewrite tf_down_compose, tf_down_translate_z. Qed.
+
+Definition seg_csgs (tol : R) (tr : tform) (mk : R -> R -> R -> prim R)
+           (oi : (R * R * R * R) * option (R * R * R * R)) : list (csg R) :=
+  let '(o, i) := oi in
+  let '(z0, z1, r0, r1) := o in
+  if soft_equal tol z0 z1 then []
+  else
+    let hz := (z1 - z0) / n2 in
+    let tr' := tf_compose tr (tf_translate_z (z0 + hz)) in
+    let outer := build_prim tol tr' (mk r0 r1 hz) in
+    match i with
+    | Some (_, _, q0, q1) => [CAnd [outer; CNot (build_prim tol tr' (mk q0 q1 hz))]]
+    | None => [outer]
+    end.
+Definition seg_inside (tol : R) (mk : R -> R -> R -> prim R) (q : vec3 R)
+           (oi : (R * R * R * R) * option (R * R * R * R)) : bool :=
+  let '(o, i) := oi in
+  let '(z0, z1, _, _) := o in
+  negb (soft_equal tol z0 z1) && seg_prim_inside mk o q &&
+  match i with Some ii => negb (seg_prim_inside mk ii q) | None => true end.
+
+Lemma poly_segments_eval tol tr mk pairs p :
+  orth (tf_rot tr) -> Forall (seg_ok tol mk) pairs ->
+  forallb (fun oi => forallb (fun c => csg_off c p) (seg_csgs tol tr mk oi)) pairs = true ->
+  existsb (fun oi => existsb (fun c => eval_csg c p) (seg_csgs tol tr mk oi)) pairs
+  = existsb (seg_inside tol mk (tf_down tr p)) pairs.
+Proof.
+  intros Ho Hseg Hosegs. set (q := tf_down tr p) in *.
+  induction pairs as [|[[[[z0 z1] r0] r1] i] rest IH]; [reflexivity|].
+  cbn [existsb forallb] in *. apply andb_true_iff in Hosegs. destruct Hosegs as [Hhere Hrest].
+  inversion Hseg as [|? ? Hok Hseg']; subst. f_equal; [|now apply IH].
+  clear IH Hrest Hseg'. unfold seg_ok in Hok. cbn [fst snd] in Hok.
+  unfold seg_csgs, seg_inside in *. destruct (soft_equal tol z0 z1); [reflexivity|]. cbn [negb andb].
+  cbv zeta in *. unfold n2 in *. numR.
+  destruct Hok as [Hgo Hgi].
+  assert (Hpt : tf_down (tf_compose tr (tf_translate_z (z0 + (z1 - z0) / 2))) p
+                = V3 (vx q) (vy q) (vz q - (z0 + (z1 - z0) / 2))) by (now apply seg_point).
+  destruct i as [[[[y0 y1] q0] q1]|].
+  - destruct Hgi as (-> & -> & Hgi). cbn [existsb forallb] in *.
+    rewrite orb_false_r. rewrite andb_true_r in Hhere. rewrite eval_and. rewrite off_and in Hhere.
+    cbn [forallb] in *. rewrite eval_not. rewrite off_not in Hhere. rewrite andb_true_r in *.
+    apply andb_true_iff in Hhere. destruct Hhere as [Ho1 Ho2].
+    rewrite !eval_build_prim. rewrite off_build_prim in Ho1, Ho2. apply negb_true_iff in Ho1, Ho2.
+    rewrite Hpt in *. rewrite (Hgo _ Ho1), (Hgi _ Ho2). unfold seg_prim_inside. unfold n2. numR. reflexivity.
+  - cbn [existsb forallb] in *. rewrite orb_false_r. rewrite andb_true_r in *.
+    rewrite eval_build_prim. rewrite off_build_prim in Hhere. apply negb_true_iff in Hhere.
+    rewrite Hpt in *. rewrite (Hgo _ Hhere). unfold seg_prim_inside. unfold n2. numR. reflexivity.
+Qed.
+
+Lemma build_poly_unfold tol tr mk zs ro ri a :
+  build_poly tol tr mk zs ro ri a
+  = match build_enclosed tol tr a with
+    | [] => COr (flat_map (seg_csgs tol tr mk) (poly_pairs zs ro ri))
+    | w => CAnd (COr (flat_map (seg_csgs tol tr mk) (poly_pairs zs ro ri)) :: w)
+    end.
+Proof. reflexivity. Qed.
+Lemma inside_poly_unfold tol mk zs ro ri a q :
+  inside_poly tol mk zs ro ri a q
+  = existsb (seg_inside tol mk q) (poly_pairs zs ro ri) && in_enclosed a q.
+Proof. reflexivity. Qed.
+
+Lemma poly_eval tol tr mk zs ro ri a p :
+  orth (tf_rot tr) -> Forall (seg_ok tol mk) (poly_pairs zs ro ri) ->
+  (forall s i, a = Some (s, i) -> 0 < i <= 1) ->
+  csg_off (build_poly tol tr mk zs ro ri a) p = true ->
+  eval_csg (build_poly tol tr mk zs ro ri a) p = inside_poly tol mk zs ro ri a (tf_down tr p).
+Proof.
+  intros Ho Hseg Ha. rewrite build_poly_unfold, inside_poly_unfold.
+  assert (Hang : forallb (fun c => csg_off c p) (build_enclosed tol tr a) = true ->
+                 forallb (fun c => eval_csg c p) (build_enclosed tol tr a) = in_enclosed a (tf_down tr p)).
+  { destruct a as [[s i]|]; [|reflexivity]. cbn [in_enclosed]. apply enclosed_eval. now apply (Ha s i). }
+  set (segs := flat_map (seg_csgs tol tr mk) (poly_pairs zs ro ri)) in *.
+  assert (Hsegs : csg_off (COr segs) p = true ->
+                  eval_csg (COr segs) p = existsb (seg_inside tol mk (tf_down tr p)) (poly_pairs zs ro ri)).
+  { unfold segs. rewrite off_or, eval_or, forallb_flat_map, existsb_flat_map. now apply poly_segments_eval. }
+  destruct (build_enclosed tol tr a) as [|c w].
+  - intros Hoff. rewrite (Hsegs Hoff). rewrite <- (Hang eq_refl). cbn. now rewrite andb_true_r.
+  - intros Hoff. rewrite off_and in Hoff. cbn [forallb] in Hoff. apply andb_true_iff in Hoff.
+    destruct Hoff as [H1 H2]. rewrite eval_and. cbn [forallb]. rewrite (Hsegs H1).
+    f_equal. apply Hang. exact H2.
+Qed.
 
 Theorem build_eval_iff_inside tol o : good tol o ->
   forall tr p, orth (tf_rot tr) -> csg_off (build tol tr o) p = true ->
@@ -265,6 +454,21 @@ Proof.
     apply negb_true_iff in Hf1, Hf2.
     repeat match goal with H : prim_good _ _ |- _ => rewrite (H _ ltac:(eassumption)); clear H end.
     reflexivity.
+  - (* Solid with an enclosed angle *)
+    cbn [build inside in_enclosed] in *. rewrite eval_and. rewrite off_and in Hoff.
+    cbn [forallb] in *. rewrite forallb_app in *.
+    apply andb_true_iff in Hoff. destruct Hoff as [Hoi Hoff]. apply andb_true_iff in Hoff. destruct Hoff as [Hoe Hoa].
+    rewrite eval_build_prim. rewrite off_build_prim in Hoi. apply negb_true_iff in Hoi.
+    match goal with H : prim_good tol i |- _ => rewrite (H _ Hoi) end.
+    rewrite (enclosed_eval tol tr s a0 p ltac:(assumption) Hoa).
+    rewrite <- andb_assoc. f_equal. f_equal.
+    destruct e as [ex|]; cbn [forallb eval_csg csg_off] in *; [|reflexivity].
+    rewrite andb_true_r in *. rewrite eval_build_prim. rewrite off_build_prim in Hoe. apply negb_true_iff in Hoe.
+    match goal with H : forall ex0, Some ex = Some ex0 -> _ |- _ => rewrite (H ex eq_refl _ Hoe) end. reflexivity.
+  - (* PolyCone *)
+    cbn [build inside] in *. now apply poly_eval.
+  - (* PolyPrism *)
+    cbn [build inside] in *. now apply poly_eval.
   - (* Transformed *)
     cbn [build inside] in *.
     assert (Ho' : orth (tf_rot (tf_compose tr t))) by (cbn [tf_compose tf_rot]; now apply orth_gemm3).
@@ -348,4 +552,37 @@ Proof.
   apply good_all. apply Forall_cons; [|apply Forall_cons; [|apply Forall_nil]].
   - apply good_tr; [|now apply good_shape]. unfold orth. cbn. repeat split; lra.
   - apply good_neg. now apply good_shape.
+Qed.
+
+(** inner and outer segments of a poly-solid always share their axial extent *)
+Lemma poly_pairs_z zs : forall ro l o ii,
+  In (o, Some ii) (poly_pairs zs ro (Some l)) ->
+  fst (fst (fst ii)) = fst (fst (fst o)) /\ snd (fst (fst ii)) = snd (fst (fst o)).
+Proof.
+  unfold poly_pairs. induction zs as [|z0 zs IH]; intros ro l o ii Hin; [destruct ro; cbn in Hin; contradiction|].
+  destruct zs as [|z1 zs']; [destruct ro as [|? [|? ?]]; cbn in Hin; contradiction|].
+  destruct ro as [|r0 [|r1 ro']]; try (cbn in Hin; contradiction).
+  destruct l as [|q0 [|q1 l']]; try (cbn in Hin; contradiction).
+  cbn [segments map combine In] in Hin. destruct Hin as [Heq|Hin].
+  - inversion Heq; subst. cbn. split; reflexivity.
+  - apply (IH (r1 :: ro') (q1 :: l')). exact Hin.
+Qed.
+
+(** so a poly-solid is covered as soon as its stacked primitives are good *)
+Lemma seg_ok_of_prims tol mk zs ro ri :
+  (forall z0 z1 r0 r1, In (z0, z1, r0, r1) (segments zs ro) -> prim_good tol (mk r0 r1 ((z1 - z0) / 2))) ->
+  (forall l z0 z1 q0 q1, ri = Some l -> In (z0, z1, q0, q1) (segments zs l) -> prim_good tol (mk q0 q1 ((z1 - z0) / 2))) ->
+  Forall (seg_ok tol mk) (poly_pairs zs ro ri).
+Proof.
+  intros Ho Hi. apply Forall_forall. intros [[[[z0 z1] r0] r1] i] Hin. unfold seg_ok. cbn [fst snd].
+  split.
+  - apply Ho. unfold poly_pairs in Hin. now apply in_combine_l in Hin.
+  - destruct i as [[[[y0 y1] q0] q1]|]; [|exact I].
+    destruct ri as [l|].
+    + destruct (poly_pairs_z zs ro l _ _ Hin) as [E1 E2]. cbn in E1, E2. subst y0 y1.
+      repeat split. apply (Hi l); [reflexivity|].
+      unfold poly_pairs in Hin. apply in_combine_r in Hin. apply in_map_iff in Hin.
+      destruct Hin as [x [Hx Hin]]. inversion Hx; subst. exact Hin.
+    + unfold poly_pairs in Hin. apply in_combine_r in Hin. apply in_map_iff in Hin.
+      destruct Hin as [x [Hx _]]. discriminate.
 Qed.
